@@ -1,62 +1,169 @@
-import AlatorVerif.Model.HttpU
-/-! C20 on the validated handler model: transport faithfulness and codec round trips — prototype (core only) -/
-namespace PH
-open PU PSU PJs
-variable {α : Type} [LE α] [DecidableLE α] [Mul α]
+import AlatorVerif.Model.Http
+import AlatorVerif.Lemmas.SrvThm
+/-! C20: the handlers are a faithful transport for the in-process calls; codec round trips (core only) -/
+namespace PHt
+open PJs SV
+variable {E Q O A D R α : Type} (X : ExchOps E Q O A D R) (enc : Enc Q R α)
 
-/-- C20: `tick` over HTTP answers 400 exactly when the in-process call knows no such backtest, otherwise
-    200 with the encoding of exactly the in-process result, and leaves the same server state behind -/
-theorem handle_tick (sl : Bool) (syms : List String) (a : App String α) (id : Nat) (adm : List (PU.Order String α)) :
-    (handle sl syms a (.tick id adm)).2 = (tick a id adm).2 ∧
-    ((tick a id adm).1 = none → (handle sl syms a (.tick id adm)).1 = bad) ∧
-    (∀ hn ts ins, (tick a id adm).1 = some (hn, ts, ins) →
-      (handle sl syms a (.tick id adm)).1 =
-        ok (.obj [("has_next", .bool hn), ("executed_trades", .arr (ts.map encTrade)),
-                  ("inserted_orders", .arr (ins.map encOrd))])) := by
+/-! ### per request -/
+
+theorem handle_tick (v : Variant) (syms : String → List String) (a : App E Q) (id : Nat) (adm : A) :
+    (handle X enc v syms a (.tick id adm : Req O A D)).2 = (tick X v a id adm).2 ∧
+    ((tick X v a id adm).1 = none → (handle X enc v syms a (.tick id adm : Req O A D)).1 = bad) ∧
+    (∀ hn r, (tick X v a id adm).1 = some (hn, r) →
+      (handle X enc v syms a (.tick id adm : Req O A D)).1 = ok (.obj (("has_next", .bool hn) :: enc.tickFields r))) := by
   simp only [handle]
-  rcases h : tick a id adm with ⟨r, a'⟩
+  rcases h : tick X v a id adm with ⟨r, a'⟩
   cases r with
   | none => simp
-  | some x => obtain ⟨hn, ts, ins⟩ := x; simp
+  | some x => obtain ⟨hn, r⟩ := x; simp
 
-theorem handle_init (sl : Bool) (syms : List String) (a : App String α) (name : String) :
-    (handle sl syms a (.init name)).2 = (init sl a name).2 ∧
-    (∀ id, (init sl a name).1 = .ok id → (handle sl syms a (.init name)).1 = ok (.obj [("backtest_id", .int id)])) ∧
-    ((init sl a name).1 = .none → (handle sl syms a (.init name)).1 = bad) := by
+theorem handle_init (v : Variant) (syms : String → List String) (a : App E Q) (name : String) :
+    (handle X enc v syms a (.init name : Req O A D)).2 = (init X v a name).2 ∧
+    (∀ id, (init X v a name).1 = .ok id →
+      (handle X enc v syms a (.init name : Req O A D)).1 = ok (.obj [("backtest_id", .int id)])) ∧
+    ((init X v a name).1 = .none → (handle X enc v syms a (.init name : Req O A D)).1 = bad) := by
   simp only [handle]
-  rcases h : init sl a name with ⟨r, a'⟩
+  rcases h : init X v a name with ⟨r, a'⟩
   cases r <;> simp
 
-theorem handle_insert (sl : Bool) (syms : List String) (a : App String α) (id : Nat) (o : PU.Order String α) :
-    (handle sl syms a (.insert id o)).2 = (insert a id o).2 ∧
-    ((handle sl syms a (.insert id o)).1.status = 200 ↔ (insert a id o).1 = true) ∧
-    ((handle sl syms a (.insert id o)).1.status = 400 ↔ (insert a id o).1 = false) := by
+theorem handle_insert (v : Variant) (syms : String → List String) (a : App E Q) (id : Nat) (o : O) :
+    (handle X enc v syms a (.insert id o : Req O A D)).2 = (insert X a id o).2 ∧
+    ((handle X enc v syms a (.insert id o : Req O A D)).1.status = 200 ↔ (insert X a id o).1 = true) ∧
+    ((handle X enc v syms a (.insert id o : Req O A D)).1.status = 400 ↔ (insert X a id o).1 = false) := by
   simp only [handle]
-  rcases h : insert a id o with ⟨r, a'⟩
+  rcases h : insert X a id o with ⟨r, a'⟩
   cases r <;> simp [ok, bad]
 
-theorem handle_readonly (sl : Bool) (syms : List String) (a : App String α) (id : Nat) :
-    (handle sl syms a (.fetch id)).2 = a ∧ (handle sl syms a (.info id)).2 = a ∧ (handle sl syms a (.now id)).2 = a ∧
-    ((handle sl syms a (.now id)).1.status = 400 ↔ now a id = none) ∧
-    ((handle sl syms a (.fetch id)).1.status = 400 ↔ fetch a id = none) ∧
-    ((handle sl syms a (.info id)).1.status = 400 ↔ a.backtests id = none) := by
+theorem handle_delete (v : Variant) (syms : String → List String) (a : App E Q) (id : Nat) (d : D) :
+    (handle X enc v syms a (.delete id d : Req O A D)).2 = (delete X a id d).2 ∧
+    ((handle X enc v syms a (.delete id d : Req O A D)).1.status = 200 ↔ (delete X a id d).1 = true) ∧
+    ((handle X enc v syms a (.delete id d : Req O A D)).1.status = 400 ↔ (delete X a id d).1 = false) := by
   simp only [handle]
-  refine ⟨?_, ?_, ?_, ?_, ?_, ?_⟩
+  rcases h : delete X a id d with ⟨r, a'⟩
+  cases r <;> simp [ok, bad]
+
+theorem handle_readonly (v : Variant) (syms : String → List String) (a : App E Q) (id : Nat) :
+    (handle X enc v syms a (.fetch id : Req O A D)).2 = a ∧ (handle X enc v syms a (.info id : Req O A D)).2 = a ∧
+    (handle X enc v syms a (.now id : Req O A D)).2 = a ∧
+    ((handle X enc v syms a (.fetch id : Req O A D)).1.status = 400 ↔ fetch a id = none) ∧
+    ((handle X enc v syms a (.info id : Req O A D)).1.status = 400 ↔ info a id = none) ∧
+    (enc.hasNow = true → ((handle X enc v syms a (.now id : Req O A D)).1.status = 400 ↔ now a id = none)) ∧
+    (∀ d q, fetch a id = some (d, q) → ∃ ds, (handle X enc v syms a (.fetch id : Req O A D)).1
+        = ok (.obj [("quotes", enc.quotes q (syms ds))])) ∧
+    (∀ ds, info a id = some ds → (handle X enc v syms a (.info id : Req O A D)).1
+        = ok (.obj [("version", .str "v1"), ("dataset", .str ds)])) ∧
+    (enc.hasNow = true → ∀ d hn, now a id = some (d, hn) → (handle X enc v syms a (.now id : Req O A D)).1
+        = ok (.obj [("now", .int d), ("has_next", .bool hn)])) := by
+  simp only [handle]
+  refine ⟨?_, ?_, ?_, ?_, ?_, ?_, ?_, ?_, ?_⟩
   · cases fetch a id with | none => rfl | some x => rfl
-  · cases a.backtests id with | none => rfl | some x => rfl
-  · cases now a id with | none => rfl | some x => rfl
-  · cases now a id with | none => simp [bad] | some x => simp [ok]
+  · cases info a id with | none => rfl | some x => rfl
+  · cases enc.hasNow
+    · rfl
+    · cases now a id with | none => rfl | some x => rfl
   · cases fetch a id with | none => simp [bad] | some x => simp [ok]
-  · cases a.backtests id with | none => simp [bad] | some x => simp [ok]
+  · cases info a id with | none => simp [bad] | some x => simp [ok]
+  · intro hn; simp only [hn, if_true]
+    cases now a id with | none => simp [bad] | some x => simp [ok]
+  · intro d q h; rw [h]; exact ⟨_, rfl⟩
+  · intro ds h; rw [h]
+  · intro hn d hnx h; simp only [hn, if_true, h]
+
+/-! ### every request sequence -/
+
+/-- the in-process counterpart of a request -/
+def toOp : Req O A D → Op O A D
+  | .init n => .init n
+  | .tick i adm => .tick i adm
+  | .insert i o => .insert i o
+  | .delete i d => .delete i d
+  | .fetch i => .fetch i
+  | .info i => .info i
+  | .now i => .now i
+
+/-- does the in-process response report "unknown backtest / dataset"? -/
+def isNone {Q R : Type} : Resp Q R → Bool
+  | .id none | .tick none | .unit false | .quotes none | .now none | .info none => true
+  | _ => false
+
+def hrun (syms : String → List String) (a : App E Q) : List (Req O A D) → List (Rsp α) × App E Q
+  | [] => ([], a)
+  | r :: rs =>
+    let x := handle X enc .repaired syms a r
+    let rest := hrun syms x.2 rs
+    (x.1 :: rest.1, rest.2)
+
+theorem handle_state (syms : String → List String) (a : App E Q) (r : Req O A D) :
+    (handle X enc .repaired syms a r).2 = (step X a (toOp r)).2 := by
+  cases r with
+  | init n => exact (handle_init X enc .repaired syms a n).1
+  | tick i adm => exact (handle_tick X enc .repaired syms a i adm).1
+  | insert i o => exact (handle_insert X enc .repaired syms a i o).1
+  | delete i d => exact (handle_delete X enc .repaired syms a i d).1
+  | fetch i => exact (handle_readonly X enc .repaired syms a i).1
+  | info i => exact (handle_readonly X enc .repaired syms a i).2.1
+  | now i => exact (handle_readonly X enc .repaired syms a i).2.2.1
+
+/-- **for every request sequence** the server behind the JSON service goes through exactly the states of
+    the same calls made in-process -/
+theorem hrun_state (syms : String → List String) (rs : List (Req O A D)) : ∀ (a : App E Q),
+    (hrun X enc syms a rs).2 = (run X a (rs.map toOp)).2 := by
+  induction rs with
+  | nil => intro a; rfl
+  | cons r rs ih =>
+    intro a
+    simp only [hrun, List.map_cons, run]
+    rw [handle_state, ih]
+
+/-- status 400 exactly where the in-process call reports an unknown backtest or dataset (for a non-empty
+    dataset, whose `init` does not panic; `now` on a service that has the route) -/
+theorem handle_status (syms : String → List String) (a : App E Q) (r : Req O A D)
+    (hnow : (∃ i, r = .now i) → enc.hasNow = true)
+    (hpanic : ∀ n, r = .init n → (init X .repaired a n).1 ≠ .panic) :
+    ((handle X enc .repaired syms a r).1.status = 400 ↔ isNone (step X a (toOp r)).1 = true) ∧
+    ((handle X enc .repaired syms a r).1.status = 200 ↔ isNone (step X a (toOp r)).1 = false) := by
+  cases r with
+  | init n =>
+    simp only [handle, toOp, step, isNone]
+    rcases h : init X .repaired a n with ⟨res, a'⟩
+    have := hpanic n rfl; rw [h] at this
+    cases res <;> simp_all [ok, bad, resId]
+  | tick i adm =>
+    simp only [handle, toOp, step, isNone]
+    rcases h : tick X .repaired a i adm with ⟨res, a'⟩
+    cases res with
+    | none => simp [bad]
+    | some x => simp [ok]
+  | insert i o =>
+    simp only [handle, toOp, step, isNone]
+    rcases h : insert X a i o with ⟨res, a'⟩
+    cases res <;> simp [ok, bad]
+  | delete i d =>
+    simp only [handle, toOp, step, isNone]
+    rcases h : delete X a i d with ⟨res, a'⟩
+    cases res <;> simp [ok, bad]
+  | fetch i =>
+    simp only [handle, toOp, step, isNone]
+    cases fetch a i with | none => simp [bad] | some x => simp [ok]
+  | info i =>
+    simp only [handle, toOp, step, isNone]
+    cases info a i with | none => simp [bad] | some x => simp [ok]
+  | now i =>
+    have hn := hnow ⟨i, rfl⟩
+    simp only [handle, toOp, step, isNone, hn, if_true]
+    cases now a i with | none => simp [bad] | some x => simp [ok]
 
 /-! ### round trips over the JSON AST -/
+section RoundTrip
+variable {α : Type}
 
-def decSide : Json α → Option Side
+def decSide : Json α → Option PU.Side
   | .str "Buy" => some .buy
   | .str "Sell" => some .sell
   | _ => none
 
-def decTrade (j : Json α) : Option (Trade String α) := do
+def decTrade (j : Json α) : Option (PU.Trade String α) := do
   let sym ← match (← j.get? "symbol") with | .str s => some s | _ => none
   let v ← match (← j.get? "value") with | .num x => some x | _ => none
   let q ← match (← j.get? "quantity") with | .num x => some x | _ => none
@@ -64,20 +171,92 @@ def decTrade (j : Json α) : Option (Trade String α) := do
   let sd ← decSide (← j.get? "typ")
   pure ⟨sym, v, q, d, sd⟩
 
-/-- C20: a trade keeps its meaning across a serialise / deserialise round trip -/
-theorem decTrade_encTrade (t : Trade String α) : decTrade (encTrade t) = some t := by
+theorem decTrade_encTrade (t : PU.Trade String α) : decTrade (encTrade t) = some t := by
   obtain ⟨sym, v, q, d, sd⟩ := t
   cases sd <;> simp [decTrade, encTrade, encSide, decSide, Json.get?, List.find?, bind, Option.bind]
 
-def decQuote (j : Json α) : Option (String × Quote α) := do
+def decQuote (j : Json α) : Option (String × PU.Quote α) := do
   let b ← match (← j.get? "bid") with | .num x => some x | _ => none
   let a ← match (← j.get? "ask") with | .num x => some x | _ => none
   let s ← match (← j.get? "symbol") with | .str s => some s | _ => none
   let d ← match (← j.get? "date") with | .int n => some n | _ => none
   pure (s, ⟨b, a, d⟩)
 
-theorem decQuote_encQuote (s : String) (q : Quote α) : decQuote (encQuote s q) = some (s, q) := by
+theorem decQuote_encQuote (s : String) (q : PU.Quote α) : decQuote (encQuote s q) = some (s, q) := by
   obtain ⟨b, a, d⟩ := q
   simp [decQuote, encQuote, Json.get?, List.find?, bind, Option.bind]
 
-end PH
+def kindSideOf : String → Option (PU.Kind × PU.Side)
+  | "MarketSell" => some (.market, .sell) | "MarketBuy" => some (.market, .buy)
+  | "LimitSell" => some (.limit, .sell) | "LimitBuy" => some (.limit, .buy)
+  | "StopSell" => some (.stop, .sell) | "StopBuy" => some (.stop, .buy)
+  | _ => none
+
+def decOrd (j : Json α) : Option (PU.Order String α) := do
+  let id ← (← j.get? "order_id") |> decOptNat
+  let ks ← match (← j.get? "order_type") with | .str s => kindSideOf s | _ => none
+  let sym ← match (← j.get? "symbol") with | .str s => some s | _ => none
+  let sh ← match (← j.get? "shares") with | .num x => some x | _ => none
+  let pr ← (← j.get? "price") |> decOptNum
+  pure ⟨id, ks.1, ks.2, sym, sh, pr⟩
+
+theorem decOrd_encOrd (o : PU.Order String α) : decOrd (encOrd o) = some o := by
+  obtain ⟨id, kind, side, sym, sh, pr⟩ := o
+  cases id <;> cases pr <;> cases kind <;> cases side <;>
+    simp [decOrd, encOrd, typName, kindSideOf, Json.get?, List.find?, decOptNat, decOptNum, bind, Option.bind]
+
+def decTif : Json α → Option PJ.Tif
+  | .str "Alo" => some .alo | .str "Ioc" => some .ioc | .str "Gtc" => some .gtc | _ => none
+def decTpsl : Json α → Option PJ.Tpsl
+  | .str "Tp" => some .tp | .str "Sl" => some .sl | _ => none
+
+def decOType (j : Json α) : Option (PJ.OType α) :=
+  match j.get? "Limit" with
+  | some l => do
+    let tif ← decTif (← l.get? "tif")
+    pure (.limit tif)
+  | none => do
+    let t ← j.get? "Trigger"
+    let px ← match (← t.get? "trigger_px") with | .num x => some x | _ => none
+    let m ← match (← t.get? "is_market") with | .bool b => some b | _ => none
+    let tp ← decTpsl (← t.get? "tpsl")
+    pure (.trigger px m tp)
+
+theorem decOType_encOType (t : PJ.OType α) : decOType (encOType t) = some t := by
+  cases t with
+  | limit tif => cases tif <;> simp [decOType, encOType, encTif, decTif, Json.get?, List.find?, bind, Option.bind]
+  | trigger px m tp =>
+    cases tp <;> simp [decOType, encOType, encTpsl, decTpsl, Json.get?, List.find?, bind, Option.bind]
+
+def decJOrd (j : Json α) : Option (PJ.Order α) := do
+  let asset ← match (← j.get? "asset") with | .int n => (if 0 ≤ n then some n.toNat else none) | _ => none
+  let isBuy ← match (← j.get? "is_buy") with | .bool b => some b | _ => none
+  let px ← match (← j.get? "limit_px") with | .num x => some x | _ => none
+  let sz ← match (← j.get? "sz") with | .num x => some x | _ => none
+  let ro ← match (← j.get? "reduce_only") with | .bool b => some b | _ => none
+  let cl ← match (← j.get? "cloid") with | .null => some none | .str s => some (some s) | _ => none
+  let ty ← decOType (← j.get? "order_type")
+  pure ⟨asset, isBuy, px, sz, ro, cl, ty⟩
+
+theorem decJOrd_encJOrd (o : PJ.Order α) : decJOrd (encJOrd o) = some o := by
+  obtain ⟨asset, isBuy, px, sz, ro, cl, ty⟩ := o
+  cases cl <;>
+    simp [decJOrd, encJOrd, Json.get?, List.find?, decOType_encOType, bind, Option.bind]
+
+/-- what a client can recover from a `Fill`: coin (as written), order id, price, side, size, time -/
+def decFill (j : Json α) : Option (String × Nat × α × Bool × α × Int) := do
+  let coin ← match (← j.get? "coin") with | .str s => some s | _ => none
+  let oid ← match (← j.get? "oid") with | .int n => (if 0 ≤ n then some n.toNat else none) | _ => none
+  let px ← match (← j.get? "px") with | .num x => some x | _ => none
+  let buy ← match (← j.get? "side") with | .str "A" => some true | .str "B" => some false | _ => none
+  let sz ← match (← j.get? "sz") with | .num x => some x | _ => none
+  let tm ← match (← j.get? "time") with | .int n => some n | _ => none
+  pure (coin, oid, px, buy, sz, tm)
+
+theorem decFill_encFill (f : PJ.Fill α) :
+    decFill (encFill f) = some (toString f.coin, f.oid, f.px, f.buy, f.sz, f.time) := by
+  obtain ⟨coin, oid, px, buy, sz, tm⟩ := f
+  cases buy <;> simp [decFill, encFill, Json.get?, List.find?, bind, Option.bind]
+
+end RoundTrip
+end PHt
